@@ -68,3 +68,74 @@ def second_pass(run, cases_, impl_out):
 
 def nontrivial(case, impl_out):
     return case.line.count("T,") >= 2
+
+
+FIRST_CONTACT = r'''
+import sys, json, warnings; warnings.simplefilter("ignore")
+sys.path.insert(0, sys.argv[1])
+order = [int(c) for c in sys.argv[2]]
+import numpy as np, torch, jax, dltype
+jax.config.update("jax_enable_x64", True)
+SHARED = ["bool", "int8", "int16", "int32", "int64", "uint8", "float16", "float32", "float64"]
+def mk(lib, dt, shape):
+    if lib == 0: return np.zeros(shape, dtype=dt)
+    if lib == 1: return torch.zeros(shape, dtype=getattr(torch, dt))
+    return jax.device_put(np.zeros(shape, dtype=dt))
+names = [n for n in dltype.__all__ if n.endswith("Tensor") and getattr(dltype, n, None) is not None] if hasattr(dltype, "__all__") else []
+names = names or [n for n in dir(dltype) if n.endswith("Tensor") and isinstance(getattr(dltype, n), type)]
+out = {}
+for n in sorted(names):
+    cls = getattr(dltype, n)
+    ann = cls["a b"]
+    rows = {}
+    for dt in SHARED:          # every class meets every shared dtype; nothing has been accepted by this class before its first row
+        v = []
+        for lib in order:
+            for shape in ((2, 3), (0, 3), (2,)):
+                try:
+                    ann.check(mk(lib, dt, shape)); r = "ok"
+                except dltype.DLTypeError as e:
+                    r = type(e).__name__
+                except Exception as e:
+                    r = "EXC " + type(e).__name__
+                v.append((lib, shape, r))
+        rows[dt] = v
+    out[n] = rows
+print(json.dumps(out))
+'''
+
+
+def custom(run, tier):
+    """First contact: in a FRESH interpreter every exported class meets every shared dtype of every library, in three library orders
+    (what a class did with earlier arrays must not matter, and the first array of a process is judged like any other)."""
+    import json
+    import os
+    import subprocess
+    import sys
+
+    import common
+
+    n = 0
+    for order in ("012", "120", "201"):
+        env = dict(os.environ, JAX_PLATFORMS="cpu")
+        r = subprocess.run([sys.executable, "-c", FIRST_CONTACT, common.REPO, order], capture_output=True, text=True, timeout=600, env=env)
+        try:
+            res = json.loads(r.stdout.strip().splitlines()[-1])
+        except Exception:  # noqa: BLE001
+            run.findings.append(Finding("failing-input", "first-contact interpreter failed: " + (r.stderr.strip().splitlines()[-1][:200] if r.stderr.strip() else f"rc={r.returncode}"),
+                                        Case(f"FIRSTCONTACT\torder={order}", "first")))
+            continue
+        for cls, rows in res.items():
+            for dt, v in rows.items():
+                by_shape = {}
+                for lib, shape, verdict in v:
+                    by_shape.setdefault(tuple(shape), []).append((lib, verdict))
+                    n += 1
+                for shape, lv in by_shape.items():
+                    if len({x for _, x in lv}) > 1:
+                        run.findings.append(Finding("failing-input", f"in a fresh interpreter (library order {order}) {cls}['a b'].check of a {dt} array of shape {shape} depends on the library: "
+                                                    + ", ".join(f"{['numpy', 'torch', 'jax'][l]}={x}" for l, x in lv),
+                                                    Case(f"FIRSTCONTACT\torder={order}\t{cls}\t{dt}\t{'.'.join(map(str, shape))}", "first"), str(lv)))
+    run.n_cases += n
+    run.dist["first-contact"] += n
+    run.coverage["first_contact_checks"] = n
